@@ -43,9 +43,9 @@ def run_lifecycle_models(out, prop, tier):
     from .core import Model
     depth, rich = (2, False) if tier == "quick" else (3, True)
     models = [Model("MC_Lifecycle.tla", {"ModelId": mid, "Depth": depth, "Emit": True, "Rich": rich}, invariants=["Prop_Lifecycle", "EmitInv"],
-                    workers=3 if tier == "quick" else 5, label=f"MC_Lifecycle/model{mid}/depth{depth}{'/rich' if rich else ''}") for mid in (1, 2, 3)]
+                    workers=3 if tier == "quick" else 5, label=f"MC_Lifecycle/model{mid}/depth{depth}{'/rich' if rich else ''}") for mid in (1, 2, 3, 4)]
     vectors = []
-    for m, res in core.run_models(models, seed=out.seed, parallel=3):
+    for m, res in core.run_models(models, seed=out.seed, parallel=4):
         out.add_tlc(m, res)
         vectors += res.vectors
     bad = core.replay_parallel(replay_lifecycle.run_vector, vectors)
@@ -53,8 +53,9 @@ def run_lifecycle_models(out, prop, tier):
     out.extra["model_run_histories_replayed"] = len(vectors)
     out.judge(core.for_property(bad, prop), "lifecycle", sig_life)
     out.assumptions.append(
-        "direction A (MC_Lifecycle.tla): three model definitions (a conserving split + dynamic stock chain, a non-conserving program with a "
-        "flow-driven stock, two dynamic stocks in a row with one outside every process); ALL histories to the stated depth of compute / one "
+        "direction A (MC_Lifecycle.tla): four model definitions (a conserving split + dynamic stock chain, a non-conserving program with a "
+        "flow-driven stock, two dynamic stocks in a row with one outside every process, a stock-driven stock prescribed by a cumulated demand "
+        "with an outflow written item by item); ALL histories to the stated depth of compute / one "
         "parameter entry overwritten / lifetime replaced / one flow entry overwritten (negative, NaN); TLC checks in every state: the program is "
         "well-formed, the mirror law, compute() forgets everything but parameters and lifetimes, right after compute() a conserving program is "
         "balanced at every process and every computed stock conserves mass, and the failing set does not depend on the storage order of the "
